@@ -1035,6 +1035,7 @@ func (c *compiler) evalCallExpression(node *ast.CallExpression) (interface{}, er
 		}
 	}
 
+	stmt := c.curStmt
 	res, err := safeCall(rv, args)
 	if err != nil {
 		return nil, fmt.Errorf("could not call %s function: %w", node.Function, err)
@@ -1044,6 +1045,15 @@ func (c *compiler) evalCallExpression(node *ast.CallExpression) (interface{}, er
 		if e, ok := res[len(res)-1].Interface().(error); ok {
 			return nil, fmt.Errorf("could not call %s function: %w", node.Function, e)
 		}
+	}
+
+	// the helper succeeded. If it ran its block and chose to forgive a failure
+	// in there, that is not a failure of the statement that raised it: the
+	// statement that was current before the call is current again, so that
+	// a later error is reported on its own line.
+	c.curStmt = stmt
+
+	if len(res) > 0 {
 		if node.ChainCallee != nil {
 			return c.evalMemberOf(res[0].Interface(), node.ChainCallee)
 		}
